@@ -97,6 +97,32 @@ def facts(repo):
         rf = b.get('ribbon_frac')
         out['layout:%s:ribbon_frac' % tag] = isinstance(rf, Const) and isinstance(rf.v, (int, float)) and abs(rf.v - r_) < 1e-9
         out['layout:%s:ribbon_frac:got' % tag] = prov(rf) if rf is not None else None
+    # the ribbon: for page widths and ribbon widths up to and past every size constant the entry compares against, the fraction handed
+    # to the layout gives back the requested ribbon - round(ribbon_frac * width) == min(ribbon_width, width), the layout's own formula
+    from engine import thresholds
+    mined, _b = thresholds.mine([m], fns=[pts.node], most=2000)
+    widths = sorted(set(list(range(1, 41)) + [50, 64, 72, 79, 80, 99, 100, 101, 120, 150, 200, 256, 300] + [t + d for t in mined for d in (1, 7, t // 2 + 1)]))
+    bad = None
+    cnt = 0
+    try:
+        for w_ in widths:
+            for r_ in sorted({1, max(1, w_ // 3), max(1, w_ // 2), max(1, w_ - 1), w_, w_ + 5, 71} if w_ > 3 else {1, w_, w_ + 2}):
+                prs_, log_ = run(dict(base, width=Const(w_), ribbon_width=Const(r_)))
+                if len(prs_) != 1 or prs_[0].raised is not None or len(log_['layout']) != 1:
+                    raise Undecided('python_to_sdocs(width=%d, ribbon_width=%d) forks / raises' % (w_, r_))
+                b_ = log_['layout'][0][1]
+                rf_, wv_ = b_.get('ribbon_frac'), b_.get('width')
+                if not (isinstance(rf_, Const) and isinstance(rf_.v, (int, float)) and isinstance(wv_, Const) and wv_.v == w_):
+                    raise Undecided('the layout is called with ribbon_frac=%s width=%s' % (prov(rf_) if rf_ is not None else None, prov(wv_) if wv_ is not None else None))
+                cnt += 1
+                eff = max(0, min(w_, round(rf_.v * w_)))
+                if eff != min(r_, w_) and bad is None:
+                    bad = 'width=%d, ribbon_width=%d: the layout is given ribbon_frac=%r, which gives a ribbon of %d columns instead of %d' % (w_, r_, rf_.v, eff, min(r_, w_))
+        out['layout:ribbon-grid'] = bad is None and cnt >= 100
+        out['layout:ribbon-grid:got'] = bad or ('%d combinations' % cnt)
+    except (Undecided, PathLimit) as e:
+        out['layout:ribbon-grid'] = False
+        out['layout:ribbon-grid:got'] = 'not interpretable: %s' % e
     _CACHE.clear()
     _CACHE[key] = (repo, out)
     return out
